@@ -119,6 +119,18 @@ func showTime(t time.Time, err error) string {
 var rfc3339Z = regexp.MustCompile(`^(\d{4})-(\d\d)-(\d\d)T(\d\d):(\d\d):(\d\d)(?:[.,](\d{1,9}))?(Z?)$`)
 
 func independentInstant(text string) (time.Time, bool) {
+	t, shape, valid := independentInstant3(text)
+	return t, shape && valid
+}
+
+// independentInstant3: shape = the text has the form of an xs:dateTime without numeric zone; valid = its fields
+// denote an instant (month 1-12, day within the month, hour < 24, minute, second < 60)
+func independentInstant3(text string) (t time.Time, shape, valid bool) {
+	t, valid = independentInstantOld(text)
+	return t, rfc3339Z.MatchString(text), valid
+}
+
+func independentInstantOld(text string) (time.Time, bool) {
 	m := rfc3339Z.FindStringSubmatch(text)
 	if m == nil {
 		return time.Time{}, false
@@ -164,8 +176,10 @@ func numOneTimeRead(s *numStats, dr *h.Driver, tl *timeLayouts, kind, text strin
 		s.evals["timeread:"+kind+":refused"]++
 	}
 	if kind == "dt" && err == nil {
-		if want, ok := independentInstant(text); ok && !want.Equal(got) {
+		if want, shape, valid := independentInstant3(text); shape && valid && !want.Equal(got) {
 			s.fail("C19/instant-misread", absI(got.Unix()), op, fmt.Sprintf("DateTimeType %q is read as %s, an independent reader takes it as %s", text, got.Format(time.RFC3339Nano), want.Format(time.RFC3339Nano)))
+		} else if shape && !valid {
+			s.fail("C19/instant-misread", absI(got.Unix()), op, fmt.Sprintf("DateTimeType %q has a field out of range and denotes no instant, but is read as %s", text, got.Format(time.RFC3339Nano)))
 		}
 	}
 	ls := tl.of(kind)
